@@ -48,7 +48,7 @@ Ops(f) ==
     [] f.form = "generic" -> {f.c} \cup (IF "vla" \in SeqSet(f.assoc) THEN {"li"} ELSE {})
     [] f.form = "builtin" -> IF f.ap THEN {"ap"} ELSE {}
     [] f.form = "struct" -> IF \E i \in DOMAIN f.mem : f.mem[i].ty = "vla" THEN {"li"} ELSE {}
-    [] f.form = "misc" -> IF f.kind \in {"vla_init", "vla2_init", "vla_ok"} THEN {"li"} ELSE {}
+    [] f.form = "misc" -> IF f.kind \in {"vla_init", "vla2_init", "vla_ok", "static_init_addr_local"} THEN {"li"} ELSE {}
     [] f.form = "ctl" -> {f.c}
     [] f.form = "stmt" /\ f.kind = "return" /\ f.v # "none" -> {f.v}
     [] OTHER -> {}
@@ -308,6 +308,7 @@ Bad(b, p, f) ==
   R_init_empty          |-> fm = "init" /\ f.n = 0 /\ f.tgt = "arr_unk",
   R_init_nonconst       |-> \/ fm = "init" /\ p = "file" /\ f.val = "gi"
                             \/ fm = "sinit" /\ T /\ p = "file" /\ ~Ent(f.o).cst,
+  R_static_init_address |-> fm = "misc" /\ T /\ f.kind \in {"static_init_addr_local", "static_init_addr_compound", "static_init_addr_index"},
   R_init_string_width   |-> fm = "strinit" /\ ( (f.tgt \in {"char4", "charunk"} /\ f.lit = "wide")
                                               \/ (f.tgt = "int4" /\ f.lit = "narrow") ),
   R_dup_member          |-> fm = "struct" /\ DupNames(MemOcc(f.mem)),
@@ -429,6 +430,8 @@ Excluded(b, p, f) ==
   \/ fm \in {"struct", "generic", "misc"} /\ "li" \in Ops(f) /\ p = "file"
   \/ fm = "builtin" /\ f.ap /\ ~(BaseTab[b].var /\ p # "file")
   \/ fm = "builtin" /\ f.kind = "alloca_ok" /\ p = "file"
+  \* a compound literal at file scope has static storage duration: its address is a constant there
+  \/ fm = "misc" /\ f.kind = "static_init_addr_compound" /\ p = "file"
   \* _Bool op= pointer: a constraint violation by 6.5.16.2p1-2 that the reference compilers accept silently
   \/ fm = "asg" /\ f.op # "=" /\ f.l = "gb" /\ IsPtr(VT(f.r))
   \* an address converted to _Bool is not one of the constant expressions 6.6p7 requires for static initializers
@@ -586,6 +589,7 @@ Wit == [
   R_too_many_init |-> {FInit("arr2", 3, "none", "k1"), FInit("struct_T", 2, "none", "k1"), FInit("int", 2, "none", "k1"), FInit("arr2", 2, "idx1", "k1"),
      FInit("struct_S", 3, "none", "k1"), FInit("struct_S", 3, "mem_m", "k1")},
   R_init_nonconst |-> {FInit("int", 1, "none", "gi"), FInit("arr2", 2, "none", "gi"), FSInit("int", "gi"), FSInit("ptr_int", "gp"), FSInit("struct_S", "gs")},
+  R_static_init_address |-> {FMisc("static_init_addr_local"), FMisc("static_init_addr_compound"), FMisc("static_init_addr_index")},
   R_init_string_width |-> {FStrInit("char4", "wide"), FStrInit("charunk", "wide"), FStrInit("int4", "narrow")},
   R_dup_member |-> {FStruct(<<M("a", "int"), M("a", "int")>>), FStruct(<<M("a", "int"), M("b", "int"), M("a", "int")>>),
      FStruct(<<M("a", "int"), [M("", "anon") EXCEPT !.inner = <<"a">>]>>),
@@ -707,7 +711,7 @@ BenignFrags == {
   FObj("int"), FObj("struct_S"), FObj("ptr_inc"),
   FBf("int", 3, TRUE, FALSE, 0), FBf("int", 32, TRUE, FALSE, 0), FBf("int", 0, FALSE, FALSE, 0), FBf("bool", 1, TRUE, FALSE, 0), FBf("int", 1, FALSE, FALSE, 0),
   FAlignas(8, "int"), FAlignas(16, "double"), FAlignas(0, "int"), FAlignas(8, "member"), FAlignas(8, "double"),
-  FArr("3", "int"), FSa("1", "decl", TRUE), FSa("1", "struct", TRUE), FMisc("vla_ok"), FSynx("paren_ok"), FCall("gsfn", <<"gs">>),
+  FArr("3", "int"), FSa("1", "decl", TRUE), FSa("1", "struct", TRUE), FMisc("vla_ok"), FMisc("static_init_addr_ok"), FSynx("paren_ok"), FCall("gsfn", <<"gs">>),
   FBuiltin("offsetof_ok", FALSE), FBuiltin("offsetof_nested_ok", FALSE), FBuiltin("offsetof_idx_ok", FALSE), FBuiltin("nanf_ok", FALSE),
   FBuiltin("tcp_ok", FALSE), FBuiltin("constant_p_ok", FALSE), FBuiltin("expect_ok", FALSE), FBuiltin("alloca_ok", FALSE),
   FBuiltin("unreachable_ok", FALSE), FBuiltin("inff_ok", FALSE), FBuiltin("va_copy_ok", TRUE), FBuiltin("va_end_ok", TRUE),
@@ -853,6 +857,7 @@ Violate_R_designator(p) == Violate("R_designator", p)
 Violate_R_too_many_init(p) == Violate("R_too_many_init", p)
 Violate_R_init_empty(p) == Violate("R_init_empty", p)
 Violate_R_init_nonconst(p) == Violate("R_init_nonconst", p)
+Violate_R_static_init_address(p) == Violate("R_static_init_address", p)
 Violate_R_init_string_width(p) == Violate("R_init_string_width", p)
 Violate_R_dup_member(p) == Violate("R_dup_member", p)
 Violate_R_struct_no_members(p) == Violate("R_struct_no_members", p)
@@ -995,6 +1000,7 @@ NamedViolate(p) ==
   \/ Violate_R_too_many_init(p)
   \/ Violate_R_init_empty(p)
   \/ Violate_R_init_nonconst(p)
+  \/ Violate_R_static_init_address(p)
   \/ Violate_R_init_string_width(p)
   \/ Violate_R_dup_member(p)
   \/ Violate_R_struct_no_members(p)
